@@ -497,6 +497,9 @@ func c15GenWorld(r *rand.Rand, kind int) c15World {
 	if kind == 0 {
 		nv = 3
 	}
+	if kind == 3 && nv < 3 {
+		nv = 3 // "A", "AB", "B": an id under "AB" also matches "A"
+	}
 	for i := 0; i < nv; i++ {
 		tn := fmt.Sprintf("T%d", i+1)
 		if i > 0 && r.Intn(6) == 0 && kind != 0 {
@@ -506,6 +509,9 @@ func c15GenWorld(r *rand.Rand, kind int) c15World {
 			n := r.Intn(5)
 			if kind == 0 {
 				n = 3
+			}
+			if kind == 3 && n < 2 {
+				n = 2
 			}
 			ids := r.Perm(len(rowIDs))
 			for j := 0; j < n; j++ {
@@ -617,13 +623,19 @@ func c15GenWorld(r *rand.Rand, kind int) c15World {
 			e.Table, e.FromField, e.ToField = from.Table, "self", "ref"
 		}
 		if kind != 0 {
-			switch r.Intn(40) {
+			switch r.Intn(36) {
 			case 0:
 				e.To = "Z:" // unknown vertex type → constructor error
 			case 1:
 				e.ToField = "" // missing config info
 			case 2:
 				e.Table = "nope"
+			case 3:
+				e.FromField = "nosuch" // a field no row holds as a string: not searchable
+			case 4:
+				e.ToField = "nosuch"
+			case 5:
+				e.From = "Z:"
 			}
 		}
 		w.Edges = append(w.Edges, e)
@@ -848,7 +860,7 @@ func c15Gen(r *Run) {
 	}
 	writes := []string{"addVertex", "addEdge", "bulkAdd", "delVertex", "delEdge", "addIndex", "delIndex"}
 	for wi := 0; wi < nworlds; wi++ {
-		if wi >= 3 && over() {
+		if wi >= 4 && over() {
 			r.Count("worlds:not-run-budget")
 			continue
 		}
@@ -858,6 +870,10 @@ func c15Gen(r *Run) {
 			kind = 0
 		case wi == 1:
 			kind = 1
+		case wi == 2:
+			kind = 3 // overlapping prefixes: always reached
+		case wi == 3:
+			kind = 4 // ids with '-': always reached
 		case wi%10 == 9:
 			kind = 3
 		case wi%10 == 5:
@@ -889,7 +905,7 @@ func c15Gen(r *Run) {
 		p := c15PoolsOf(w)
 		fixed := c15Fixed(p)
 		for i, q := range fixed {
-			if wi >= 3 && i%3 != wi%3 { // a third of the fixed programs per later world
+			if wi >= 4 && kind == 2 && i%3 != wi%3 { // a third of the fixed programs per later random world
 				continue
 			}
 			query(q)
